@@ -87,6 +87,18 @@ def build_runs(tier, seed):
                                          "INSERT INTO OA (Id, Nm) VALUES (%s, %s);\nINSERT INTO OB (OA_Id, Id) VALUES (%s, %s);\n",
                                          "INSERT INTO OB VALUES (%s, %s);\nINSERT INTO OA (Nm, Id) VALUES (%s, %s);\n"]) % (v, w, w, v))
             runs.append({'kind': 'oddtypes', 'texts': texts + [tail(500 + k)], 'build_every': 1})
+    # rows of tables that no CREATE TABLE declares (their classes are inferred from the values): values of every lexical class,
+    # strings that span lines or hold comment markers, quotes, nothing at all
+    odd = ["'first line\nsecond line'", "'-- not a comment\n'", "'\n'", "''", "'it''s'", "'/* x */'", "'tab\there'", '-7', '0', '4.75', '-0.5',
+           '"00000000-0000-0000-0000-000000000004"', 'TRUE', 'false', "'x' ", "'  '"]
+    for k in range(12 if tier == 'quick' else 200):
+        vals = [rnd.choice(odd) for _ in range(rnd.randint(1, 5))]
+        named = ', '.join('c%d' % i for i in range(len(vals)))
+        texts = ["INSERT INTO Und%d VALUES (%s);\n" % (k, ', '.join(vals)),
+                 "INSERT INTO Und%d (%s) VALUES (%s);\n" % (k, named, ', '.join(rnd.choice(odd) for _ in vals)),
+                 "INSERT INTO Oth%d (%s) VALUES (%s);\n" % (k, named, ', '.join(vals))]
+        rnd.shuffle(texts)
+        runs.append({'kind': 'inferred', 'texts': texts + [tail(600 + k)], 'build_every': 1})
     # adversarial sizes for the time bound
     runs.append({'kind': 'long', 'texts': ["INSERT INTO X VALUES ('" + "a''" * 20000 + "');", '-- ' + 'x' * 100000,
                                            "'" + 'b' * 50000, '"' + 'c' * 50000, '(' * 3000, '1' * 5000 + '.'],
@@ -155,7 +167,7 @@ def check(tier, replay_path=None):
                    'distinct = distinct histories of texts',
            'samples': samples or [{'note': 'none'}], 'calls_per_outcome': outcomes,
            'runs_by_kind': {k: sum(1 for r in runs if r['kind'].split(':')[0] == k) for k in
-                            ('mutant', 'interleaved', 'soup', 'noise', 'long', 'oddtypes')},
+                            ('mutant', 'interleaved', 'soup', 'noise', 'long', 'oddtypes', 'inferred')},
            'model': 'LoadIO.tla (Accept, RejectInput, Build) with RejectedInputIsStutter, BuildIsPure',
            'exhaustive': False}
     evidence.write(PID, tier, 'model_checking', cov, t.s(), rep.n, [
